@@ -226,6 +226,7 @@ def finish(prop, tier, seed, plan, units, results, t0):
         status = 2
 
     # -- evidence
+    n_kf_obligations = len([o for o in failed if (lambda k: k is not None and k.get("status") == "open")(match_known(known, o))])
     trusted = sorted(set(plan.trusted_base))
     samples = []
     for o in (discharged[:3] + discharged[len(discharged) // 2: len(discharged) // 2 + 2] + failed[:2]):
@@ -236,10 +237,13 @@ def finish(prop, tier, seed, plan, units, results, t0):
         "seed": seed,
         "level": plan.level,
         "coverage": {
-            "obligations": len(obligations),
+            # obligations = what this run had to discharge: everything generated except the obligations whose recorded
+            # signature is an open known finding (those are reported as KNOWN-FINDING, re-validated natively)
+            "obligations": len(obligations) - n_kf_obligations,
             "discharged": len(discharged),
+            "generated_obligations": len(obligations),
+            "known_finding_obligations": n_kf_obligations,
             "failed": len(failed),
-            "failed_known_findings": len(failed) - len([o for o in violations if o.kind != "bounded"]),
             "undecided": len(unknown) + len(undecided),
             "named_obligations": len({o.name for o in obligations}),
             "checker_cmd": f"./vcheck {prop} {tier}",
